@@ -80,6 +80,13 @@ def lazy_len(E, st, x):
         else:
             n = E.fresh("complen", z3.IntSort())
             st.pc.append(z3.And(n >= 0, n <= lift(x.seq.length)))
+            # non-empty iff some element passes the filter
+            j = E.fresh("j", z3.IntSort())
+            try:
+                cond, _ = E.comp_elem(st, x, j)
+                st.pc.append((n > 0) == z3.Exists([j], z3.And(j >= 0, j < lift(x.seq.length), lift(cond))))
+            except Unsupported:
+                pass
             x._len = n
     return x._len
 
@@ -367,6 +374,11 @@ def b_path_join(E, st, node, args, kw):
     return [(st, f(to_U(args[0]), to_U(args[1])), None)]
 
 
+def b_len_U(E, st, node, args, kw):
+    f = z3.Function("len_U", U, z3.IntSort())
+    return [(st, f(to_U(args[0])), None)]
+
+
 def b_item(E, st, node, args, kw):
     """item(xs, i): i-th element of an opaque iterable (spec language)"""
     f = z3.Function("item_U", U, z3.IntSort(), U)
@@ -384,6 +396,7 @@ GLOBALS = {
     "implies": b_implies,
     "unpath": b_unpath,
     "item": b_item,
+    "len_U": b_len_U,
     "path_join": b_path_join,
     "len": b_len,
     "str": b_str,
